@@ -27,6 +27,7 @@ def sh(cmd, **kw):
 def main():
     args = [a for a in sys.argv[1:] if not a.startswith("--")]
     skip_base = "--skip-baseline" in sys.argv
+    confirm_only = "--confirm-only" in sys.argv
     out_dir, k, name, prop = args[:4]
     checks = args[4:] or [prop]
     diff = os.path.join(out_dir, "change%s.diff" % k)
@@ -58,6 +59,19 @@ def main():
     finally:
         sh(["git", "-C", "/repo", "worktree", "remove", "--force", wt])
         shutil.rmtree(wt, ignore_errors=True)
+    if confirm_only:
+        # evaluation against /repo is left to tools/reseed.py (serial, final machinery)
+        dst = os.path.join(VERIF, "seeded", name)
+        os.makedirs(dst, exist_ok=True)
+        shutil.copy(diff, os.path.join(dst, "patch.diff"))
+        shutil.copy(demo, os.path.join(dst, "demo.py"))
+        meta["candidate_checks"] = checks
+        meta["ran"] = ("scratch worktree: demo on clean tree (rc %s), git apply, demo with change (rc %s), pinned suite via "
+                       "tools/baseline.py (%s); checks run against /repo by tools/reseed.py"
+                       % (meta["demo_clean_rc"], meta["demo_changed_rc"], meta["baseline"]))
+        json.dump(meta, open(os.path.join(dst, "meta.json"), "w"), indent=1)
+        print(json.dumps({k: meta[k] for k in ("name", "demo_clean_rc", "demo_changed_rc", "baseline")}))
+        return
     # evaluation against /repo itself
     st = sh(["git", "-C", "/repo", "status", "--porcelain"])
     assert st.stdout.strip() == "", "/repo not clean: " + st.stdout
